@@ -387,10 +387,11 @@ K("A2.span_extract_bounded", ["C10"], SPAN, "check_span_extract_bounded", "Span:
   "inclusive box tests per cell", kind="bounded", bound="spans of 3 cells", timeout=600)
 
 FTREE = "buffer/fragment_buffer/fragment_tree.rs"
-B("C16.enclose_tags", ["C16", "C10", "C09", "C04"], FTREE, "bounded_enclose_tags",
+B("C16.enclose_tags", ["C16", "C10", "C09", "C04", "C03"], FTREE, "bounded_enclose_tags",
   "FragmentTree::enclose_fragments / enclose_recursive / second_pass_enclose / enclose_deep_first / Fragment::as_css_tag / can_fit (real bodies)",
   "a tag inside a rectangle or circle adds its names to the innermost enclosing shape and is not rendered; inside no shape it stays text; "
-  "malformed tags and other text are rendered once, unaffected; every fragment occurs exactly once in the forest (also with overlapping, non-nested shapes)",
+  "malformed tags and other text are rendered once, unaffected; every fragment occurs exactly once in the forest (also with overlapping, non-nested shapes) "
+  "and FragmentTree::fragments_to_node / into_nodes renders every node of the forest exactly once, at every depth",
   "8 shapes (three boxes nested in each other, sibling box, circle, a circle nested in a box, a box nested in a circle) x 9 placements x 8 contents (tags, plain text, malformed tags, labels that start with a tag) x 4 shape orders = 288 cases; "
   "Kani: the recursive Vec<FragmentTree> with Strings did not finish in 900 s",
   timeout=600)
